@@ -400,6 +400,64 @@ fn track_clone_drop() {
     outcome(format!("{got:?}"));
 }
 
+/// Producers only (no concurrent consumer): `kinds.len()` threads race on the producer side —
+/// push_lock, the drop-oldest path and try_send's refusal — and the main thread drains to
+/// end-of-stream after joining them. Without the consumer thread the interleaving space is
+/// small enough to explore without a schedule cap.
+fn track_producers_only(cap: usize, n: u32, shared: bool, kinds: &[SendKind]) {
+    let (source, track, _fb) = sample_track(MediaKind::Audio, cap);
+    let mut handles = vec![];
+    if shared {
+        let src = Arc::new(source);
+        for (p, kind) in kinds.iter().copied().enumerate() {
+            let s = src.clone();
+            handles.push(loom::thread::spawn(move || {
+                let ok = do_sends(&s, p as u32, n, kind);
+                drop(s);
+                ok
+            }));
+        }
+        drop(src);
+    } else {
+        let mut srcs = vec![];
+        for _ in 1..kinds.len() {
+            srcs.push(source.clone());
+        }
+        srcs.push(source);
+        for ((p, s), kind) in srcs.into_iter().enumerate().zip(kinds.iter().copied()) {
+            handles.push(loom::thread::spawn(move || {
+                let ok = do_sends(&s, p as u32, n, kind);
+                drop(s);
+                ok
+            }));
+        }
+    }
+    let mut accepted = vec![];
+    for h in handles {
+        accepted.extend(h.join().unwrap());
+    }
+    let got = consume_until_eos(&track);
+    after_eos(&track, &got);
+    check_order(&got, "track_producers_only");
+    for id in &got {
+        assert!(accepted.contains(id), "ORACLE: received {id} which no producer had accepted");
+    }
+    let total = kinds.len() * n as usize;
+    let may_discard = kinds.iter().any(|k| !matches!(k, SendKind::TrySend));
+    if !may_discard {
+        assert!(got.len() == accepted.len(), "ORACLE: accepted {accepted:?} but received {got:?}");
+        // nothing is consumed meanwhile: exactly min(cap, total) are accepted
+        assert!(accepted.len() == total.min(cap), "ORACLE: accepted {accepted:?}, expected {} of {total} (cap {cap})", total.min(cap));
+    } else if cap >= total {
+        assert!(got.len() == total, "ORACLE: no overflow possible, pushed {total}, received {got:?}");
+    } else {
+        // drop-oldest keeps the queue full: exactly cap samples survive unless a try_send was refused
+        let refused = total - accepted.len();
+        assert!(got.len() + refused >= cap.min(total - refused) , "ORACLE: accepted {accepted:?} but only {got:?} survived (cap {cap})");
+    }
+    outcome(format!("{got:?}"));
+}
+
 // ---------------------------------------------------------------- model table
 
 struct ModelSpec {
@@ -451,6 +509,22 @@ fn models() -> Vec<ModelSpec> {
             what: "3 cloned producers send 1 each (cap 4) || consumer", run: || track_producers(4, 3, 1, false, Send) },
         ModelSpec { name: "track_2p_send_many_c4_n2", pb_quick: Some(2), pb_thorough: Some(3), thorough_only: true,
             what: "2 cloned producers send_many(2) (cap 4) || consumer", run: || track_producers(4, 2, 2, false, SendMany) },
+        ModelSpec { name: "track_2p_only_try_send_c2_n1", pb_quick: None, pb_thorough: None, thorough_only: false,
+            what: "2 cloned producers try_send 1 each (cap 2), drained after join: both accepted, both received", run: || track_producers_only(2, 1, false, &[TrySend, TrySend]) },
+        ModelSpec { name: "track_2p_only_try_send_shared_c1_n1", pb_quick: None, pb_thorough: None, thorough_only: false,
+            what: "2 threads try_send 1 each through one shared source (cap 1): exactly one accepted", run: || track_producers_only(1, 1, true, &[TrySend, TrySend]) },
+        ModelSpec { name: "track_2p_only_mixed_c2_n1", pb_quick: None, pb_thorough: None, thorough_only: false,
+            what: "send || try_send (cap 2), drained after join", run: || track_producers_only(2, 1, false, &[Send, TrySend]) },
+        ModelSpec { name: "track_2p_only_send_c1_n1_overflow", pb_quick: None, pb_thorough: None, thorough_only: false,
+            what: "send || send into cap 1 (two drop-oldest paths race), drained after join", run: || track_producers_only(1, 1, false, &[Send, Send]) },
+        ModelSpec { name: "track_2p_only_try_send_c4_n2", pb_quick: None, pb_thorough: None, thorough_only: false,
+            what: "2 cloned producers try_send 2 each (cap 4), drained after join", run: || track_producers_only(4, 2, false, &[TrySend, TrySend]) },
+        ModelSpec { name: "track_2p_only_send_many_vs_try_c2_n2", pb_quick: None, pb_thorough: None, thorough_only: false,
+            what: "send_many(2) || try_send x2 into cap 2 (overflow), drained after join", run: || track_producers_only(2, 2, false, &[SendMany, TrySend]) },
+        ModelSpec { name: "track_3p_only_try_send_c4_n1", pb_quick: None, pb_thorough: None, thorough_only: false,
+            what: "3 cloned producers try_send 1 each (cap 4), drained after join", run: || track_producers_only(4, 1, false, &[TrySend, TrySend, TrySend]) },
+        ModelSpec { name: "track_4p_only_mixed_c2_n1", pb_quick: Some(2), pb_thorough: Some(4), thorough_only: true,
+            what: "4 producers (send, try_send, send_many, send) 1 each into cap 2, drained after join", run: || track_producers_only(2, 1, false, &[Send, TrySend, SendMany, Send]) },
         ModelSpec { name: "track_stop_empty", pb_quick: None, pb_thorough: None, thorough_only: false,
             what: "stop() || recv on an empty live track: recv must return EOS (no lost wake-up)", run: || track_stop(0) },
         ModelSpec { name: "track_stop_presend1", pb_quick: None, pb_thorough: None, thorough_only: false,
